@@ -318,6 +318,18 @@ namespace hist
         {
             if (!movable)
                 return false;
+            if (variant % 5 == 4 && !zombies_.empty())
+            {
+                // a closed chain of moves: the current object is assigned back onto an object that was
+                // moved from earlier, and the history continues on that one
+                T* n = zombies_.back();
+                zombies_.pop_back();
+                *n = std::move(*cur_);
+                zombies_.push_back(cur_);
+                cur_ = n;
+                self().after_move();
+                return true;
+            }
             void* st       = Slab::get().object_storage(above, sizeof(T), alignof(T));
             int   o2       = ctx_.new_owner();
             T*    n        = self().fresh_other(st, o2, variant);
